@@ -81,21 +81,26 @@ async def calculate_in_subprocess(func: Callable[..., Union[T, Awaitable[T]]], *
     rx, tx = Pipe(duplex=False)  # receiver & transmitter ; Pipe is one-way only
     process = Process(target=_inner, args=(tx, func, *args), kwargs=kwargs)
     process.start()
+    tx.close()  # the child owns the only write end now: if it dies, the receiver sees EOF instead of waiting forever
 
     event = asyncio.Event()
     loop = asyncio.get_event_loop()
     loop.add_reader(fd=rx.fileno(), callback=event.set)
 
-    if not rx.poll():  # do not use process.is_alive() as condition here
-        await event.wait()
+    try:
+        if not rx.poll():  # do not use process.is_alive() as condition here
+            await event.wait()
+    finally:
+        loop.remove_reader(fd=rx.fileno())
+        event.clear()
 
-    loop.remove_reader(fd=rx.fileno())
-    event.clear()
-
-    result = rx.recv()
-    process.join()  # this blocks synchronously! make sure that process is terminated before you call join()
-    rx.close()
-    tx.close()
+    try:
+        result = rx.recv()
+    except EOFError:
+        result = SubprocessError(ex=ChildProcessError('The subprocess terminated without returning a result.'))
+    finally:
+        process.join()  # this blocks synchronously! make sure that process is terminated before you call join()
+        rx.close()
 
     if isinstance(result, SubprocessError):
         raise result.exception
